@@ -153,6 +153,7 @@ PROPS = {
                 ("closeq", C(InitMax=1, Budget=4, AllowClose=True, ResizeTargets=[2], AllowDropPool=True, AllowSuspend=False), True),
                 ("close", C(InitMax=1, Budget=5, AllowClose=True, ResizeTargets=[2], AllowDropPool=True), True),
                 ("close2", C(InitMax=2, Budget=4, AllowClose=True, AllowTake=True, AllowRetain=True, ResizeTargets=[1]), True),
+                ("closerto", C(InitMax=1, Budget=4, AllowClose=True, RecycleTO=["finite"], GetModes=["nb"], AllowFail=False, AllowCancel=False), True),
             ],
         },
     },
@@ -215,6 +216,7 @@ PROPS = {
                 ("rt", C(InitMax=2, Budget=5, AllowRetain=True, AllowTake=True, AllowCancel=False), True),
                 ("rsz", C(InitMax=2, Budget=5, AllowRetain=True, AllowTake=True, ResizeTargets=[1], AllowClose=True, AllowSuspend=False, AllowCancel=False), True),
                 ("m3", C(InitMax=3, MaxObjs=4, Budget=6, ThreadLevel=False, AllowRetain=True, AllowTake=True, AllowSuspend=False, AllowCancel=False, GetModes=["nb"]), True),
+                ("clfail", C(InitMax=1, Budget=4, AllowClose=True, AllowSuspend=False, AllowCancel=False, GetModes=["nb"]), True),
                 ("pgreg", C(MaxSize=3, NConns=4, Budget=5, Method="fast", Keys=["a"]), True,
                  {"kind": "pgmgr", "invariants": ["Inv_C16_registry", "Inv_Capacity"], "actprops": [], "preds": ["P16c", "P16d", "P16f"],
                   "hcfg": {"stress": 24, "stress_rounds": 40}}),
